@@ -5,6 +5,7 @@ driver — runs the Lean model on the same TSV cases the Rust harness runs on th
 import RuschmModel.DriverNum
 import RuschmModel.DriverText
 import RuschmModel.DriverMacro
+import RuschmModel.DriverGen
 open Ruschm
 
 def runCase (kind : String) (fields : List String) : List String :=
@@ -14,6 +15,9 @@ def runCase (kind : String) (fields : List String) : List String :=
   | "read" => Driver.read fields
   | "bracket" => Driver.bracket fields
   | "expand" => Driver.expand fields
+  | "gen-selfcheck" => Driver.genSelfcheck fields
+  | "gen-text" => Driver.genText fields
+  | "gen-data" => Driver.genData fields
   | k => ["X unknown-kind " ++ k]
 
 partial def loop (h : IO.FS.Stream) (out : IO.FS.Stream) : IO Unit := do
